@@ -1,6 +1,9 @@
 package props
 
 import (
+	"bytes"
+	"crypto/md5"
+	"encoding/hex"
 	"fmt"
 	"sort"
 	"strconv"
@@ -339,4 +342,64 @@ func bigMultipart(c *engine.Ctx) {
 		}
 	}
 	_ = model.PartETag
+}
+
+// bigComplete (C06): a complete request that lists more parts than any page or
+// clamp holds (1003 parts, numbers with gaps up to 10000) is assembled exactly.
+func bigComplete(c *engine.Ctx) {
+	for _, kind := range []drv.Kind{drv.Mem, drv.Bolt} {
+		w, err := drv.NewWorld(drv.Config{Kind: kind})
+		if err != nil {
+			engine.HarnessError("big: %v", err)
+		}
+		w.Do(drv.Req{Method: "PUT", Path: "/aaa"})
+		r := w.Do(drv.Req{Method: "POST", Path: "/aaa/big", Query: "uploads", Header: drv.H(mpMetaKey, "big")})
+		n := r.XML()
+		if n == nil || n.T("UploadId") == "" {
+			engine.HarnessError("big initiate: %s", r.Short())
+		}
+		id := n.T("UploadId")
+		var list []model.CPart
+		var want []byte
+		h := md5.New()
+		for i := 1; i <= bigN; i++ {
+			pn := i * 9 // gaps; the highest number is 9027
+			if i == bigN {
+				pn = 10000
+			}
+			body := []byte{byte('a' + i%26)}
+			if r := w.Do(drv.Req{Method: "PUT", Path: "/aaa/big", Query: drv.Q("uploadId", id, "partNumber", strconv.Itoa(pn)), Body: body}); r.Status != 200 {
+				engine.HarnessError("big part: %s", r.Short())
+			}
+			list = append(list, model.CPart{N: pn, ETag: model.PartETag(body)})
+			want = append(want, body...)
+			s := md5.Sum(body)
+			h.Write(s[:])
+		}
+		bad := func(field, format string, a ...interface{}) {
+			c.Report(&engine.Violation{Sig: sig("C06", "any", "big-complete", field), World: string(kind), History: []string{fmt.Sprintf("complete with %d parts", len(list))},
+				Msg: fmt.Sprintf("complete of an upload with %d parts on %s: ", len(list), kind) + fmt.Sprintf(format, a...)})
+		}
+		cr := w.Do(drv.Req{Method: "POST", Path: "/aaa/big", Query: drv.Q("uploadId", id), Body: completeBody(list)})
+		c.Add(1, 1, 1, 1)
+		etag := fmt.Sprintf(`"%s-%d"`, hex.EncodeToString(h.Sum(nil)), len(list))
+		switch {
+		case cr.Panic != "":
+			bad("panic@"+drv.PanicFrame(cr.Panic), "%s", firstLine(cr.Panic))
+		case cr.Status != 200:
+			bad("status", "a valid ascending list with correct ETags answered %s", cr.Short())
+		default:
+			if x := cr.XML(); x == nil || x.T("ETag") != etag {
+				bad("etag", "result ETag differs from %s: %s", etag, clip(string(cr.Body), 200))
+			}
+			v := w.Get("aaa", "big")
+			if v.Status != 200 || !bytes.Equal(v.Body, want) || v.Meta[mpMetaKey] != "big" {
+				bad("object", "GET answers %d with %d bytes (want %d), metadata %q", v.Status, len(v.Body), len(want), v.Meta[mpMetaKey])
+			}
+			if pp := w.ListParts("aaa", "big", id, ""); pp.Status != 404 {
+				bad("upload-still-exists", "ListParts after complete answers %d", pp.Status)
+			}
+		}
+		w.Close()
+	}
 }
